@@ -81,6 +81,8 @@ type Disk struct {
 	// ReadHook, if set, is called (without the lock held) at the start of every ReadAt; used to park a reader that
 	// already holds a reference to a WAL state.
 	ReadHook func(name string)
+	// AfterGetStable, if set, is called (without the lock held) after GetStable has read the value and before it returns it
+	AfterGetStable func(key []byte)
 }
 
 // OpenWriterDirSyncs mirrors the production fs package: does the first Sync on a handle obtained from
@@ -431,15 +433,29 @@ func (m *Meta) CommitState(s types.PersistentState) error {
 func (m *Meta) GetStable(key []byte) ([]byte, error) {
 	d := m.D
 	d.mu.Lock()
-	defer d.mu.Unlock()
 	if !d.metaOpen {
+		d.mu.Unlock()
 		return nil, errors.New("simfs: meta store not open")
 	}
 	v, ok := d.stable[string(key)]
-	if !ok {
-		return nil, nil
+	var out []byte
+	if ok {
+		out = cp(v)
 	}
-	return cp(v), nil
+	h := d.AfterGetStable
+	d.mu.Unlock()
+	// the value has been read; a test may hold the caller here while other calls run
+	if h != nil {
+		h(key)
+	}
+	return out, nil
+}
+
+// SetAfterGetStable installs (or, with nil, removes) the AfterGetStable hook.
+func (d *Disk) SetAfterGetStable(f func(key []byte)) {
+	d.mu.Lock()
+	d.AfterGetStable = f
+	d.mu.Unlock()
 }
 
 func (m *Meta) SetStable(key, value []byte) error {
